@@ -120,7 +120,7 @@ package testscript
 //@   ensures forall p int {gWaitedCmd[p]} :: old(gWaitedCmd)[p] ==> gWaitedCmd[p]
 
 // ---- C16: UpdateScripts ----
-//@ property C16: (*TestScript).doCmdCmp, (*TestScript).Check, (*TestScript).MkAbs, (*TestScript).applyScriptUpdates, (*TestScript).run
+//@ property C16: (*TestScript).doCmdCmp, (*TestScript).Check, (*TestScript).MkAbs, (*TestScript).applyScriptUpdates, (*TestScript).run, (*TestScript).setup
 
 //@ func (*TestScript).Check
 //@   requires ts != nil
@@ -298,6 +298,7 @@ package testscript
 //@   ensures ts.params.Setup == nil ==> 10 <= len(ts.env) && len(ts.env) <= 12 && at(ts.env, lo(ts.env)+2) == "GOTRACEBACK=system"
 //@   at call os.Getenv#2: requires key == "GOCOVERDIR" || key == "GORACE"
 //@   at call testscript.writeFile#1: requires excl == ts.params.RequireUniqueNames && sameSlice(data, f.Data)
+//@   at call os.MkdirAll#2: requires mapdom(ts.scriptFiles, name) && sameStr(ts.scriptFiles[name], f.Name)
 //@   loop 1: invariant -1 <= rangeindex && rangeindex < 2
 //@   loop 1: invariant env != nil && 9 <= len(env.Vars) && len(env.Vars) <= 10 + rangeindex && sameStr(env.WorkDir, ts.workdir) && sameStr(env.Cd, ts.workdir) && env.ts == ts
 //@   loop 1: invariant at(env.Vars, lo(env.Vars)+2) == "GOTRACEBACK=system" && at(env.Vars, lo(env.Vars)+8) == "$=$"
